@@ -27,14 +27,25 @@ Fragments == {<<10>>, <<13, 10>>,
               B("    1:"), B("2:void m() -> n"), B("    void"), B(" m() -> n"),
               B("# k"), B(": v"), B("# {\"id\":\"sourceFile\",\"fileName\":\"F"), B("\"}")}
 
+\* UTF-8 is validated token by token: a character cut short (in front of a delimiter or anywhere else), a stray
+\* continuation byte, an invalid byte and a well-formed two-byte character are inserted at EVERY byte position of
+\* a class, field, method and header line; a further line (or nothing) follows.  Whatever the insertion spoils is
+\* its own line.
+Utf8Lines == {B("ab -> c:"), B("    int f -> g"), B("    1:2:void m(x):3:4 -> n"), B("# k: v")}
+Utf8Seqs == {<<195>>, <<195, 169>>, <<226, 130>>, <<169>>, <<255>>}
+Utf8Follows == {<<>>, B("a -> b:") \o <<10>>, B("    void m() -> n")}
+
 VARIABLES s, n, mode
 vars == <<s, n, mode>>
 
-Init == s = <<>> /\ n = 0 /\ mode \in {"bytes", "tokens", "fragments"}
+Init == s = <<>> /\ n = 0 /\ mode \in {"bytes", "tokens", "fragments", "utf8"}
 Next ==
   \/ mode = "bytes" /\ n < MaxLen /\ \E b \in Alphabet : s' = Append(s, b) /\ n' = n + 1 /\ UNCHANGED mode
   \/ mode = "tokens" /\ n < MaxTok /\ \E t \in Tokens : s' = s \o t /\ n' = n + 1 /\ UNCHANGED mode
   \/ mode = "fragments" /\ n < MaxFrag /\ \E t \in Fragments : s' = s \o t /\ n' = n + 1 /\ UNCHANGED mode
+  \/ mode = "utf8" /\ n = 0 /\ UNCHANGED mode /\ n' = 1
+     /\ \E l \in Utf8Lines, u \in Utf8Seqs, f \in Utf8Follows : \E k \in 0..Len(l) :
+          s' = SubSeq(l, 1, k) \o u \o SubSeq(l, k + 1, Len(l)) \o <<10>> \o f
 Spec == Init /\ [][Next]_vars
 
 Splits(w) == {k \in 1..Len(w) : w[k] = 10}
@@ -48,7 +59,7 @@ Laws ==
 
 \* strings up to EmitLen / EmitTok are printed for replay into the real iterator
 EmitCase ==
-  (n > 0 /\ n <= (IF mode = "bytes" THEN EmitLen ELSE IF mode = "tokens" THEN EmitTok ELSE MaxFrag)) =>
+  (n > 0 /\ n <= (IF mode = "bytes" THEN EmitLen ELSE IF mode = "tokens" THEN EmitTok ELSE IF mode = "utf8" THEN 1 ELSE MaxFrag)) =>
     PrintT("CASE " \o ToJson([src |-> s, splits |-> SetToSortSeq(Splits(s), LAMBDA a, b : a < b)]))
 
 Inv == Laws /\ EmitCase
